@@ -437,7 +437,8 @@ pub fn load_value(j: &Value, crosscheck: bool) -> Result<Loaded, LoadError> {
                         check(&[big(&v)], false)?;
                         trace_auth[t].push(v);
                     }
-                    _ => return mal(format!("unexpected kind {} in trace decommitment", k)),
+                    // a kind the parser's filters do not know: the line does not exist for it (same as an unknown path)
+                    _ => return Err(LoadError::Unspecified(format!("unknown P->V annotation {} / {}", p, k))),
                 }
             }
             (p, k) if p.starts_with("STARK/FRI/Decommitment/Layer ") => {
@@ -459,7 +460,7 @@ pub fn load_value(j: &Value, crosscheck: bool) -> Result<Loaded, LoadError> {
                         check(&[big(&v)], false)?;
                         fri_auth[li - 1].push(v);
                     }
-                    _ => return mal(format!("unexpected kind {} in FRI decommitment", k)),
+                    _ => return Err(LoadError::Unspecified(format!("unknown P->V annotation {} / {}", p, k))),
                 }
             }
             (p, k) => return Err(LoadError::Unspecified(format!("unknown P->V annotation {} / {}", p, k))),
